@@ -164,19 +164,16 @@ Definition poly_draw_styled_thin (st : style) (pl : polyline) : list (point * Z)
 
 (* ---- generator + consumer where the generator is modelled ------------------------------------------ *)
 
-(* triangle::ScanlineIterator for stroke width 0 (scanline_intersections.rs:139-189): no edge intersections;
-   `collapsed` is the value of `triangle.is_collapsed(0, offset) && offset == StrokeOffset::Right`
-   (line joins: not modelled here; observed: true exactly for colinear vertices with StrokeAlignment::Inside).
-   collapsed: every row is the triangle's scanline labelled Stroke; otherwise labelled Fill when there is a fill. *)
-Definition tri_gen_w0 (has_fill collapsed : bool) (t : triangle) : list (scanline * point_type) :=
-  if collapsed then map (fun s => (s, PTStroke)) (tri_scanlines t)
-  else if has_fill then map (fun s => (s, PTFill)) (tri_scanlines t)
-  else [].
+(* triangle::ScanlineIterator for stroke width 0 (scanline_intersections.rs:45-49, 139-189): is_collapsed is false
+   (`stroke_width > 0 && ...`), there are no edge intersections, so every row is the triangle's scanline labelled Fill
+   when there is a fill colour, and nothing otherwise. *)
+Definition tri_gen_w0 (has_fill : bool) (t : triangle) : list (scanline * point_type) :=
+  if has_fill then map (fun s => (s, PTFill)) (tri_scanlines t) else [].
 
 Definition has_fill (st : style) : bool := match fill_color st with Some _ => true | None => false end.
 
-Definition tri_styled_pixels_w0 (st : style) (collapsed : bool) (t : triangle) : list (point * Z) :=
-  tri_styled_pixels st (tri_gen_w0 (has_fill st) collapsed t).
+Definition tri_styled_pixels_w0 (st : style) (t : triangle) : list (point * Z) :=
+  tri_styled_pixels st (tri_gen_w0 (has_fill st) t).
 
-Definition tri_draw_styled_w0 (st : style) (collapsed : bool) (t : triangle) : list (rect * Z) :=
-  tri_draw_styled st (tri_gen_w0 (has_fill st) collapsed t).
+Definition tri_draw_styled_w0 (st : style) (t : triangle) : list (rect * Z) :=
+  tri_draw_styled st (tri_gen_w0 (has_fill st) t).
